@@ -550,7 +550,7 @@ DOWNSTREAM = [
     (r'EnumStatement|parse_enum_definition', ['C08']),
     (r'for grammar::Type>|parse_type_ident', ['C01', 'C05', 'C10', 'C20']),
     (r'for grammar::Expr>|for grammar::ExprField>', ['C08', 'C15', 'C17', 'C20']),
-    (r'for grammar::ItemPath>|parse_item_definition|for grammar::Module>|parse_str', ['C11', 'C14', 'C05', 'C15']),
+    (r'for grammar::ItemPath>|parse_item_definition|for grammar::Module>|parse_str', ['C11', 'C14', 'C05', 'C15', 'C17', 'C20']),
     (r'parse_backend', ['C14']),
     (r'for grammar::Visibility>', ['C17']),
 ]
